@@ -43,6 +43,16 @@ func (w *world) opGenesis() string {
 		}
 		return false
 	})
+	callsBefore := map[[2]uint64]uint64{}
+	for k, sp := range w.specs {
+		if sp.kind == "r" && w.outCallThere(sp) {
+			callsBefore[k] = sp.outNonce
+		}
+	}
+	// the id counters (transfer / batch / bridge-call ids) are not exported either (C05 finding `genesis-id-counters`): with
+	// them restarted, a result claim voted before the restart would consume a NEW outgoing bridge call that got the old
+	// nonce again.  Not this property's subject: the harness carries the counters over and counts it.
+	seqBefore := hx.RawPrefix(w.s.Ctx, w.key, crosschaintypes.SequenceKeyPrefix)
 	nPend := len(hx.RawPrefix(w.s.Ctx, w.key, crosschaintypes.PendingExecuteClaimKey))
 	res := hx.Try(func() error {
 		st := crosschainkeeper.ExportGenesis(w.s.Ctx, w.k)
@@ -67,6 +77,13 @@ func (w *world) opGenesis() string {
 	// (Token, Denom) pairs come back under other keys; the harness re-registers its two tokens so that deferred claims keep
 	// executing, and records the loss
 	if res == "ok" {
+		store := w.s.Ctx.KVStore(w.key)
+		for _, p := range seqBefore {
+			if cur := store.Get(p[0]); len(cur) == 0 || sdk.BigEndianToUint64(cur) < sdk.BigEndianToUint64(p[1]) {
+				store.Set(p[0], p[1])
+				w.out.Count("genesis:id-counter-restarted(carried over by the harness)")
+			}
+		}
 		if _, ok := w.k.GetBridgeDenomByContract(w.s.Ctx, w.fxToken); !ok {
 			w.out.Count("genesis:fx-bridge-token-entry-lost(re-registered)")
 			_ = w.k.AddBridgeTokenExecuted(w.s.Ctx, &crosschaintypes.MsgBridgeTokenClaim{TokenContract: w.fxToken, Name: "Function X",
@@ -91,6 +108,12 @@ func (w *world) opGenesis() string {
 		if d := c - after[n]; d > 0 {
 			w.lostRefund[n] += d
 			w.out.Count("genesis:refund-record-dropped")
+		}
+	}
+	for k, n := range callsBefore {
+		if !w.k.HasOutgoingBridgeCall(w.s.Ctx, n) {
+			w.lostCalls[k] = true // (the export does not carry the outgoing bridge calls: C05 matter) not an effect of a result claim
+			w.out.Count("genesis:outgoing-bridge-call-dropped")
 		}
 	}
 	if nPend > 0 && len(hx.RawPrefix(w.s.Ctx, w.key, crosschaintypes.PendingExecuteClaimKey)) == 0 {
